@@ -68,6 +68,9 @@ pub struct NetCounters {
     pub user_delayed: u64,
     pub bytes_submitted: u64,
     pub unroutable: u64,
+    /// datagrams dropped because the receiver's queue ("socket buffer") was full
+    pub rx_overflow: u64,
+    pub max_rxq: u64,
 }
 
 /// Record of a datagram handed to the network by dust-dds.
@@ -96,6 +99,13 @@ struct NetSt {
     fragment_size: usize,
     /// hash of the realised fault schedule (fate of every user datagram)
     fate_hash: u64,
+    /// virtual processing time charged per delivered datagram (receive-side service time)
+    service_ns: i64,
+    /// earliest virtual time the next datagram may be handed to each participant
+    next_free: Vec<i64>,
+    /// per-participant receive queue ("socket buffer"): arrived but not yet processed
+    rxq: Vec<std::collections::VecDeque<Vec<u8>>>,
+    rxq_cap: usize,
 }
 
 pub struct Net {
@@ -121,6 +131,10 @@ impl Net {
                 frozen: false,
                 fragment_size,
                 fate_hash: 0,
+                service_ns: 20 * US,
+                next_free: Vec::new(),
+                rxq: Vec::new(),
+                rxq_cap: 2048,
             }),
             notify: Notify::new(),
         })
@@ -128,6 +142,11 @@ impl Net {
 
     pub fn set_policy(&self, p: Option<FaultFn>) {
         self.st.lock().unwrap().policy = p;
+    }
+    /// virtual time a participant needs per received datagram (models finite CPU; keeps message
+    /// storms from being free in virtual time)
+    pub fn set_service_time(&self, ns: i64) {
+        self.st.lock().unwrap().service_ns = ns;
     }
     pub fn set_fragment_size(&self, f: usize) {
         self.st.lock().unwrap().fragment_size = f;
@@ -299,28 +318,65 @@ impl Net {
     }
 
     /// The delivery pump; spawn it as a local task. Never returns.
+    ///
+    /// Datagrams whose delivery time has come are moved to the destination's receive queue (a
+    /// bounded "socket buffer"); each participant takes one datagram from its queue per
+    /// `service_ns` of virtual time. This models finite receive-side CPU: without it a message
+    /// storm costs no virtual time and the simulation can be kept busy for ever at one instant.
     pub async fn pump(self: Arc<Net>, sim: Sim) {
         loop {
             let now = sim.now();
+            // Ok(delivery) | Err(next wake time, if any)
             let next = {
                 let mut st = self.st.lock().unwrap();
+                let st = &mut *st;
                 if st.frozen {
                     Err(None)
                 } else {
-                    match st.inflight.keys().next().cloned() {
-                        Some(k) if k.0 <= now => {
-                            let f = st.inflight.remove(&k).unwrap();
-                            let st = &mut *st;
-                            let p = &st.parts[f.dst];
-                            if p.removed || p.partitioned {
-                                st.counters.dropped += 1;
-                                continue;
-                            }
-                            st.counters.delivered += 1;
-                            Ok((p.receiver.clone(), f.bytes))
+                    // arrivals
+                    while let Some(k) = st.inflight.keys().next().cloned() {
+                        if k.0 > now {
+                            break;
                         }
-                        Some(k) => Err(Some(k.0)),
-                        None => Err(None),
+                        let f = st.inflight.remove(&k).unwrap();
+                        if st.rxq.len() <= f.dst {
+                            st.rxq.resize_with(f.dst + 1, Default::default);
+                            st.next_free.resize(f.dst + 1, 0);
+                        }
+                        let p = &st.parts[f.dst];
+                        if p.removed || p.partitioned {
+                            st.counters.dropped += 1;
+                        } else if st.rxq[f.dst].len() >= st.rxq_cap {
+                            st.counters.rx_overflow += 1;
+                        } else {
+                            st.rxq[f.dst].push_back(f.bytes);
+                            let l = st.rxq[f.dst].len() as u64;
+                            if l > st.counters.max_rxq {
+                                st.counters.max_rxq = l;
+                            }
+                        }
+                    }
+                    // service
+                    let mut pick = None;
+                    let mut wake: Option<i64> = st.inflight.keys().next().map(|k| k.0);
+                    for dst in 0..st.rxq.len() {
+                        if st.rxq[dst].is_empty() {
+                            continue;
+                        }
+                        if st.next_free[dst] <= now {
+                            pick = Some(dst);
+                            break;
+                        }
+                        wake = Some(wake.map_or(st.next_free[dst], |w| w.min(st.next_free[dst])));
+                    }
+                    match pick {
+                        Some(dst) => {
+                            let bytes = st.rxq[dst].pop_front().unwrap();
+                            st.next_free[dst] = now + st.service_ns;
+                            st.counters.delivered += 1;
+                            Ok((st.parts[dst].receiver.clone(), bytes))
+                        }
+                        None => Err(wake),
                     }
                 }
             };
@@ -330,7 +386,7 @@ impl Net {
                 }
                 Err(Some(t)) => {
                     // sleep until due or until something new is submitted
-                    let mut sl = std::pin::pin!(sim.sleep(t - now - 1));
+                    let mut sl = std::pin::pin!(sim.sleep((t - now - 1).max(0)));
                     let mut nw = std::pin::pin!(self.notify.wait());
                     std::future::poll_fn(|cx| {
                         use std::future::Future;
